@@ -196,6 +196,25 @@ TRANSPARENT_METHODS = (
 )
 
 
+# container operations: the element projection of the use is carried through to the element that was put in
+CONTAINER_SHORT = ("push", "push_back", "push_front", "into_iter", "iter", "iter_mut", "next", "pop", "pop_front", "pop_back", "collect", "extend",
+                   "drain", "cloned", "copied", "rev", "by_ref", "peekable", "flatten")
+CONTAINER_PREFIX = ("alloc::vec::", "alloc::collections::", "core::iter::", "core::slice::", "smallvec::", "core::option::Option::<T>::take")
+
+
+def is_container_op(t):
+    d = callee_def(t)
+    return d.rsplit("::", 1)[-1] in CONTAINER_SHORT and d.startswith(CONTAINER_PREFIX)
+
+
+def _strip_elem(rest):
+    """drop a leading `(as Some).0` element-extraction pair"""
+    r = list(rest)
+    if len(r) >= 2 and r[0][0] == "dc" and r[0][1] == "Some" and r[1][0] == "f" and r[1][1] == 0:
+        return r[2:]
+    return r
+
+
 def is_transparent(t):
     d = callee_def(t)
     if not d:
@@ -359,6 +378,7 @@ class Slice:
         self.aggs = []       # (bi, rv) aggregates met
         self.places = set()  # (local, tuple of field names) for every place visited
         self.fields = set()  # (owning ADT short name, field name) of every field projection visited
+        self.fields_full = set()  # (owning ADT full path, field name)
 
     def call_defs(self):
         return [callee_def(t) for _, t, _ in self.calls]
@@ -431,6 +451,7 @@ def backward(body, op, proj=(), stop=None, through_calls=True, max_nodes=20000, 
         res.locals.add(l)
         res.places.add((l, tuple(proj_names(pr))))
         res.fields.update(proj_fields(pr))
+        res.fields_full.update((e[3] if len(e) > 3 else "", e[2]) for e in pr if e[0] == "f")
         ds = defs.get(l, [])
         if 1 <= l <= body.argc:
             res.params.append((l, pr))
@@ -498,8 +519,9 @@ def backward(body, op, proj=(), stop=None, through_calls=True, max_nodes=20000, 
                         continue
                     if not through_calls:
                         continue
+                    carry = tuple(_strip_elem(rest)) if is_container_op(t) else ()
                     for a in t["args"]:
-                        push_op(a, (), dbi)
+                        push_op(a, carry, dbi)
             elif df["kind"] == "mutarg":
                 t = df["term"]
                 if is_transparent(t):
@@ -509,11 +531,14 @@ def backward(body, op, proj=(), stop=None, through_calls=True, max_nodes=20000, 
                     continue
                 if not through_calls:
                     continue
+                carry = tuple(rest) if is_container_op(t) else ()
                 for a in t["args"]:
                     p = op_place(a)
                     if p is not None and p["l"] == l:
                         continue
-                    push_op(a, (), dbi)
+                    if carry and l in body._mut_targets(a, 0):
+                        continue
+                    push_op(a, carry, dbi)
     return res
 
 
